@@ -43,7 +43,8 @@ func snapshot(root string) map[string]fileState {
 		}
 		b, _ := os.ReadFile(p)
 		h := sha256.Sum256(b)
-		out[rel] = fileState{Mode: info.Mode().Perm(), Sum: hex.EncodeToString(h[:])}
+		// a symbolic link is recorded as such (mode bit), with the content it resolves to
+		out[rel] = fileState{Mode: info.Mode() & (os.ModePerm | os.ModeSymlink), Sum: hex.EncodeToString(h[:])}
 		return nil
 	})
 	return out
@@ -91,6 +92,30 @@ func prepareRoot(root string, sc c15Scenario, emb map[string]string) {
 			_ = os.Chmod(p, 0o600)
 		}
 		_ = os.WriteFile(filepath.Join(skill, "EXTRA.md"), []byte("a file of an older release\n"), 0o644)
+	case "same-content-other-modes", "same-content-symlinks":
+		// an installation whose files already have the embedded content, but not the final permissions (restored
+		// from a backup, umask 077, made read-only) or that are symbolic links to identical copies kept elsewhere
+		modes := []os.FileMode{0o600, 0o664, 0o444, 0o640}
+		var rels []string
+		for rel := range emb {
+			rels = append(rels, rel)
+		}
+		sort.Strings(rels)
+		src := filepath.Join(pipe.RepoDir(), "internal", "llmsetup", "skills", "kessoku-di")
+		for i, rel := range rels {
+			p := filepath.Join(skill, rel)
+			_ = os.MkdirAll(filepath.Dir(p), 0o755)
+			b, _ := os.ReadFile(filepath.Join(src, rel))
+			if sc.Prior == "same-content-symlinks" {
+				store := filepath.Join(root, "home", "store", rel)
+				_ = os.MkdirAll(filepath.Dir(store), 0o755)
+				_ = os.WriteFile(store, b, 0o600)
+				_ = os.Symlink(store, p)
+				continue
+			}
+			_ = os.WriteFile(p, b, 0o600)
+			_ = os.Chmod(p, modes[i%len(modes)])
+		}
 	case "leftover-tmp":
 		_ = os.MkdirAll(filepath.Join(skill, "references"), 0o755)
 		_ = os.WriteFile(filepath.Join(skill, ".tmp-111111"), []byte("torn"), 0o600)
@@ -127,7 +152,7 @@ func runC15(args []string) {
 		os.Exit(2)
 	}
 	scenarios := []c15Scenario{}
-	for _, prior := range []string{"fresh", "older", "leftover-tmp"} {
+	for _, prior := range []string{"fresh", "older", "leftover-tmp", "same-content-other-modes", "same-content-symlinks"} {
 		scenarios = append(scenarios,
 			c15Scenario{Agent: "claude-code", Base: "proj/.claude/skills", Prior: prior},
 			c15Scenario{Agent: "opencode", Args: []string{"--user"}, Base: "home/.config/opencode/skill", Prior: prior})
@@ -157,13 +182,21 @@ func runC15(args []string) {
 		}
 		refs[sc.String()] = r.Events
 		refRoots[sc.String()] = root
+		// the fault-free run itself must complete the installation (content and final permissions of every file)
+		fin := snapshot(root)
+		for rel, sum := range emb {
+			if a := fin[filepath.Join(sc.Base, "kessoku-di", rel)]; a.Sum != sum || a.Mode != 0o644 {
+				rc.Add(Finding{Kind: "successful-run-incomplete", Site: "reference", Pre: "prior=" + sc.Prior, Detail: fmt.Sprintf("after a fault-free run that exited 0, %s is not the embedded content as a regular file with mode 0644 (mode %v)", rel, a.Mode), Witness: sc.String() + ": fault-free run"})
+				break
+			}
+		}
 		n := len(r.Events) // last one is exit_group
 		for k := 1; k <= n; k++ {
 			jobs = append(jobs, job{sc: sc, kind: "crash", k: k})
 		}
 		for k := 1; k < n; k++ {
 			for ei, e := range errnos {
-				if !rc.Thorough() && si >= 2 && ei > 0 {
+				if !rc.Thorough() && (si >= 2 && ei > 0 || si >= 6 && si%2 == 1) {
 					continue
 				}
 				jobs = append(jobs, job{sc: sc, kind: "fail", k: k, errno: e})
@@ -342,7 +375,7 @@ func runC15(args []string) {
 	rc.Coverage = map[string]any{
 		"evaluations":         len(jobs),
 		"distinct_nontrivial": len(distinct),
-		"rule":                "the UNMODIFIED CLI under a ptrace supervisor that numbers, in one total order over all threads, every system call touching the private destination root (newfstatat, mkdirat, openat, write, fsync, close, fchmodat, renameat, unlinkat, ... and exit_group). For every scenario (agent x prior state fresh / older install with other bytes and modes / leftover .tmp-* files) and EVERY index k: (a) SIGKILL before call k (k = N+1 is death at exit), then the per-file atomicity invariant, then a fault-free run that must complete the installation; (b) call k fails with EIO / ENOSPC / EACCES, then: error reported for mutating steps, no new temp file, failed file keeps its previous state, per-file atomicity. A run counts only if its own trace reaches call k through the same calls as the reference (otherwise retried, then reported unaligned). distinct = distinct (scenario, k, fault) triples evaluated",
+		"rule":                "the UNMODIFIED CLI under a ptrace supervisor that numbers, in one total order over all threads, every system call touching the private destination root (newfstatat, mkdirat, openat, write, fsync, close, fchmodat, renameat, unlinkat, ... and exit_group). For every scenario (agent x prior state fresh / older install with other bytes and modes / leftover .tmp-* files / identical content with other permissions / identical content behind symbolic links) and EVERY index k: (a) SIGKILL before call k (k = N+1 is death at exit), then the per-file atomicity invariant, then a fault-free run that must complete the installation; (b) call k fails with EIO / ENOSPC / EACCES, then: error reported for mutating steps, no new temp file, failed file keeps its previous state, per-file atomicity. A run counts only if its own trace reaches call k through the same calls as the reference (otherwise retried, then reported unaligned). distinct = distinct (scenario, k, fault) triples evaluated",
 		"samples":             samples,
 		"exhaustive":          unaligned == 0,
 		"aligned_runs":        aligned,
